@@ -49,8 +49,8 @@ Definition agree (c : case) : bool :=
      hi (nothing outside may be used): offered now and covered by some specifier (or in a wallet
         literally named by a wallet-only specifier);
      lo (everything inside must be used): offered now, unlockable, and covered by a plain
-        specifier (no anchor characters, no top-level alternation, at most one "/", non-empty
-        account part when there is a "/") whose wallet part is literally the wallet's name.
+        specifier (no anchor characters, at most one "/", non-empty account part when there is
+        a "/") whose wallet part is literally the wallet's name.
    Retention: the remote signer's list is never wiped by a refresh that yields nothing. *)
 Section Spec.
   Variable parse : string -> option (list re).
@@ -80,12 +80,6 @@ Section Spec.
         end
     end.
 
-  Fixpoint has_char (c : ascii) (s : string) : bool :=
-    match s with
-    | EmptyString => false
-    | String x s' => Ascii.eqb x c || has_char c s'
-    end.
-
   Definition covers_lo (raw : string) (a : account) : bool :=
     negb (has_char "^"%char raw) && negb (has_char "$"%char raw) &&
     match split_slash raw with
@@ -95,7 +89,7 @@ Section Spec.
             negb (wallet_only && has_char "/"%char raw) &&
             String.eqb w (a_wallet a) &&
             match parse w, parse ac with
-            | Some [rw], Some [ra] => full_match (Seq rw (Seq slash ra)) (codes (full_name a))
+            | Some ws, Some accs => full_match (Seq (alts ws) (Seq slash (alts accs))) (codes (full_name a))
             | _, _ => false
             end
         | None => false
